@@ -27,13 +27,19 @@ def has_h(body):
     return b'h' in b''.join(v[0] for v in body) or 'h:' in ','.join(R.canon_value(v) for v in body)
 
 
-def check_program(h, m, ctor, arr, hits, out):
+def check_program(h, m, ctor, arr, hits, out, fops=''):
     """m: the intended message (fields in the order the setters are called)."""
     if m.body and m.field(R.F_SIGNATURE) is None:
         m = m.copy()
         m.fields = m.fields + [(R.F_SIGNATURE, (b'g', m.body_sig()))]
-    prog = '%s %s %s' % (ctor, arr, R.canon_msg(m))
-    case = {'program': prog}
+    if fops:
+        # flags are produced by a HISTORY of setter calls; m.flags is the expected final flag byte
+        mb = m.copy()
+        mb.flags = 0
+        prog = '%s %s %s FOPS=%s' % (ctor, arr, R.canon_msg(mb), fops)
+    else:
+        prog = '%s %s %s' % (ctor, arr, R.canon_msg(m))
+    case = {'program': prog, 'expected_flags': m.flags}
     try:
         r = h.cmd('BUILD ' + prog)
     except HarnessDied as e:
@@ -44,7 +50,7 @@ def check_program(h, m, ctor, arr, hits, out):
         return
     kv = parse_kv(r)
     b1 = bytes.fromhex(kv['bytes'])
-    if ctor == 's' and m.mtype == R.MT_SIGNAL:
+    if ctor == 's' and m.mtype == R.MT_SIGNAL and not fops:
         # dbus_message_new_signal() documents that it sets NO_REPLY_EXPECTED
         m = m.copy()
         m.flags |= 1
@@ -115,9 +121,10 @@ def task_batch(items):
     """items: list of (ctor, arr, Msg-as-tuple)"""
     h = worker_harness('vbox')
     out, hits = [], {}
-    for ctor, arr, mt in items:
+    for it in items:
+        ctor, arr, mt = it[:3]
         m = R.Msg(*mt)
-        check_program(h, m, ctor, arr, hits, out)
+        check_program(h, m, ctor, arr, hits, out, it[3] if len(it) > 3 else '')
     byfp = {}
     for v in out:
         byfp.setdefault(v.fingerprint, []).append(v)
@@ -159,6 +166,25 @@ def programs(tier):
                 ([(R.F_DESTINATION, dest)] if dest else [])
             yield ('s', 'i', (R.MT_CALL, 0, 3, f, [(b'u', 1)]))
     yield ('s', 'i', (R.MT_SIGNAL, 0, 3, [(R.F_PATH, (b'o', b'/p')), (R.F_INTERFACE, (b's', b'x.y')), (R.F_MEMBER, (b's', b'S'))], []))
+    # flag histories: every sequence of <= 3 calls of the three flag setters with TRUE/FALSE, on every message type
+    ops = ['+n', '-n', '+a', '-a', '+i', '-i']
+
+    def final(start, seq):
+        f = start
+        for o in seq:
+            bit = {'n': 1, 'a': 2, 'i': 4}[o[1]]
+            on = (o[0] == '+') != (o[1] == 'a')     # auto_start(TRUE) CLEARS the NO_AUTO_START bit
+            f = (f | bit) if on else (f & ~bit)
+        return f
+    base = {R.MT_CALL: [(R.F_PATH, (b'o', b'/p')), (R.F_MEMBER, (b's', b'M'))], R.MT_RETURN: [(R.F_REPLY_SERIAL, (b'u', 9))],
+            R.MT_ERROR: [(R.F_ERROR_NAME, (b's', b'a.b.E')), (R.F_REPLY_SERIAL, (b'u', 9))],
+            R.MT_SIGNAL: [(R.F_PATH, (b'o', b'/p')), (R.F_INTERFACE, (b's', b'x.y')), (R.F_MEMBER, (b's', b'S'))]}
+    for n in (1, 2, 3):
+        for seq in itertools.product(ops, repeat=n):
+            for mt in (R.MT_CALL, R.MT_RETURN, R.MT_ERROR, R.MT_SIGNAL):
+                yield ('g', 'i', (mt, final(0, seq), 11, list(base[mt]), []), ''.join(seq))
+            yield ('s', 'i', (R.MT_SIGNAL, final(1, seq), 11, list(base[R.MT_SIGNAL]), []), ''.join(seq))
+            yield ('s', 'i', (R.MT_CALL, final(0, seq), 11, list(base[R.MT_CALL]), []), ''.join(seq))
     # long values: strings crossing 8-byte residues in every field
     for n in range(1, 18):
         fields = [(R.F_PATH, (b'o', b'/' + b'p' * n)), (R.F_INTERFACE, (b's', b'i.' + b'f' * n)), (R.F_MEMBER, (b's', b'm' * n)),
@@ -222,10 +248,15 @@ def replay(case):
     out, hits = [], {}
     prog = case['program']
     ctor, arr, canon = prog.split(' ', 2)
+    fops = ''
+    if ' FOPS=' in canon:
+        canon, fops = canon.rsplit(' FOPS=', 1)
     with Harness('vbox') as h:
         # re-run BUILD + all clauses from the canonical text
         m = msg_from_canon(canon)
-        check_program(h, m, ctor, arr, hits, out)
+        if fops:
+            m.flags = case['expected_flags']
+        check_program(h, m, ctor, arr, hits, out, fops)
     return out
 
 
